@@ -190,6 +190,21 @@ def check(run):
         third = ShellSpec(0, [x + 0.7 for x in pair[0].center], [core.rand_exp(rng, 0.3, 1.5)], [[1.0]])
         for arrangement in ((pair[0], pair[1], pair[0], pair[1]), (pair[0], pair[1], third, third), (third, third, pair[0], pair[1]), (pair[1], pair[0], third, pair[0])):
             quartet_case(run, list(arrangement), "general", "tight+diffuse contracted shells %g bohr apart" % R_)
+    # linear symmetric arrangement C - A - D: both shells of one pair on the central atom, the other pair on the outer atoms with equal
+    # single exponents (the weighted centre of the outer pair falls on the central atom), a p function on one outer atom — integrals
+    # that are odd along the axis do not vanish; every axis, both orders of the pairs, tighter and looser central pair
+    for ax in range(3):
+        for n_, (ea, ek) in enumerate(((0.3, 1.5), (2.5, 0.6)) if not quick else (((0.3, 1.5),) if ax else ((0.3, 1.5), (2.5, 0.6)))):
+            R_ = [0.0, 0.0, 0.0]
+            R_[ax] = 1.5 + 0.25 * ax
+            cA = [0.25, -0.5, 0.125]
+            sa1 = ShellSpec(0, cA, [ea], [[1.0]])
+            sa2 = ShellSpec(ax % 2, cA, [ea * 1.25], [[1.0]])
+            pc = ShellSpec(1, [a + b for a, b in zip(cA, R_)], [ek], [[1.0]])
+            sd = ShellSpec(0, [a - b for a, b in zip(cA, R_)], [ek], [[1.0]])
+            quartet_case(run, [sa1, sa2, pc, sd], "general", "linear symmetric arrangement")
+            quartet_case(run, [pc, sd, sa1, sa2], "general", "linear symmetric arrangement")
+            quartet_case(run, [sa1, sa2, sd, pc], "general", "linear symmetric arrangement")
     # two shells of one angular momentum with different declared Cartesian orders inside one quartet
     from checks import c09 as _c09
     _c09.same_l_conventions_case(run, rng, quick, names=["eri_chemist", "eri_physicist"][: 1 if quick else 2])
